@@ -236,6 +236,7 @@ func c19LifeSessionScenario(c *fw.Ctx, id, proto string) schedScenario {
 		var replies []string
 		broke := ""
 		var completedAt, drainedAt, requestedAt int64 = -1, -1, -1
+		leftAtDrain := -1
 		var store storage.Store
 		// Services.Start runs in the initialisation phase: its goroutines are children of "I"
 		cfg.Eager = []string{"R"}
@@ -366,6 +367,12 @@ func c19LifeSessionScenario(c *fw.Ctx, id, proto string) schedScenario {
 						mu.Lock()
 						drainedAt = vsched.StepNo()
 						mu.Unlock()
+						if proto == "pop3" {
+							ms, _ := store.GetMessages("u")
+							mu.Lock()
+							leftAtDrain = len(ms)
+							mu.Unlock()
+						}
 					}},
 				}
 				cleanup := func() {
@@ -391,6 +398,8 @@ func c19LifeSessionScenario(c *fw.Ctx, id, proto string) schedScenario {
 							n := len(replies)
 							if n != 5 || !strings.HasPrefix(replies[4], "+OK") || len(ms) != 0 {
 								finalProbs = append(finalProbs, [2]string{"pop3-deletes-not-applied", fmt.Sprintf("message 1 was marked and QUIT sent during shutdown: replies %v, mailbox u still holds %d messages", replies, len(ms))})
+							} else if leftAtDrain > 0 {
+								finalProbs = append(finalProbs, [2]string{"pop3-deletes-pending-at-drain-return", fmt.Sprintf("when main's drain sequence returned, mailbox u still held %d message(s): the pending deletion was applied only afterwards", leftAtDrain)})
 							}
 						}
 						if drainedAt >= 0 && drainedAt < completedAt {
